@@ -225,6 +225,15 @@ MUTANTS = [
     ('C13', 'lattice_lib.py', '  if not l1 and not l2:\n    return tf.constant(0.0, shape=[], dtype=weights.dtype)', '  if not l1 and not l2:\n    return 0.0', 'D1', 'python float from the early exit'),
     ('C05', 'pwl_calibration_layer.py', '          is_missing = tf.maximum(is_missing, equals_missing_value)', '          pass', 'E5', 'value test dropped when a flag tensor is given'),
     ('C05', 'pwl_calibration_layer.py', '          is_missing = tf.maximum(is_missing, equals_missing_value)', '          is_missing = tf.maximum(equals_missing_value, is_missing)', None, 'N: commuted maximum'),
+    ('C10', 'categorical_calibration_layer.py', '    if output_min is not None or output_max is not None:\n      # With a single bound', '    if output_min is not None and output_max is not None:\n      # With a single bound', 'K5',
+     'categorical initializer only bounded when both bounds are given'),
+    ('C10', 'lattice_lib.py', '    init_min = 0.0 if output_max > 0.0 else output_max - 1.0', '    init_min = min(0.0, output_max)', 'I3', 'degenerate default range for output_max <= 0'),
+    ('C10', 'lattice_layer.py', '      return keras.initializers.RandomUniform(init_min, init_max)', '      return keras.initializers.get("random_uniform")', 'K5', 'joint-unimodal initializer ignores the bounds'),
+    ('C10', 'lattice_lib.py', '    init_max = 1.0 if output_min < 1.0 else output_min + 1.0', '    init_max = output_min + 1.0 if output_min >= 1.0 else 1.0', None, 'N: conditional written the other way round'),
+    ('C10', 'pwl_calibration_layer.py', '          output_min=self._output_init_min,\n          output_max=self._output_init_max,\n          monotonicity=self.monotonicity)', '          output_min=self._output_init_min,\n          output_max=self._output_init_min,\n          monotonicity=self.monotonicity)', 'K5', 'PWL initializer loses the upper bound'),
+    ('C06', 'linear_lib.py', '      if lower is not None and upper is not None and upper > lower:\n        scalings[dim] *= upper - lower\n    scalings = tf.constant(',
+     '      if lower is not None and upper is not None:\n        scalings[dim] *= upper - lower\n    scalings = tf.constant(', 'D2', 'zero-width range scaled in project'),
+    ('C16', 'linear_layer.py', '        monotonicities=self.monotonicities,\n        input_min=self.input_min,\n        input_max=self.input_max)', '        monotonicities=self.monotonicities)', 'V1', 'Linear bounds validated only with constraints'),
     ('C17', 'premade_lib.py', '        # going out of bound on the lattice\n        addition_score = -2.0',
      '        # going out of bound on the lattice\n        addition_score = -1.0', 'W7', 'full lattice ties with a repeat'),
     ('C17', 'premade_lib.py', '        # going out of bound on the lattice\n        addition_score = -2.0',
